@@ -875,8 +875,8 @@ def _block_matrix(rng, bs, nb, cplx, singular):
 
 
 def gen_block(rng, t):
-    bs = int(rng.choice([1, 2, 3, 4, 2, 3, 7]))
-    nb = int(rng.integers(1, 4)) if bs < 7 else 1
+    bs = int(rng.choice([1, 2, 3, 4, 2, 3, 7, 5, 6, 2, 3, 8]))
+    nb = int(rng.integers(1, 4)) if bs < 5 else int(rng.integers(1, 3))
     cplx = bool(rng.random() < 0.3)
     singular = bool(rng.random() < 0.5)
     D = _block_matrix(rng, bs, nb, cplx, singular)
@@ -884,7 +884,7 @@ def gen_block(rng, t):
     history = str(rng.choice(['single', 'inv_then_plain', 'twice', 'other_bs_first']))
     fmt = ['csr', 'bsr', 'csc', 'coo', 'bsr2'][t % 5]
     if fn == 'get_block_diag' and history != 'single' and rng.random() < 0.5:
-        fmt = 'bsr'          # the caches live on a BSR input whose block size matches
+        fmt = 'bsr2' if history == 'other_bs_first' else 'bsr'   # the caches live on a BSR input
     if fmt == 'bsr':
         spec = compress(rng, D, 'bsr', bs=(bs, bs))
     elif fmt == 'bsr2':
@@ -922,6 +922,8 @@ def eval_block(ctx, c, feats=()):
                     U.get_block_diag(A, bs, inv_flag=inv)
                 elif h == 'other_bs_first':
                     ob = [b for b in (1, 2, 3) if n % b == 0 and b != bs]
+                    if fmt == 'bsr' and A.blocksize[0] == A.blocksize[1] and A.blocksize[0] != bs:
+                        ob = [A.blocksize[0]]
                     if ob:
                         U.get_block_diag(A, ob[0], inv_flag=inv)
                 out = np.array(U.get_block_diag(A, bs, inv_flag=inv))
@@ -1060,12 +1062,14 @@ def eval_filterop(ctx, c, feats=()):
 # ------------------------------------------------------------------------------------------------
 
 def gen_kernel(rng, t):
-    kind = ['csc_scale_rows', 'csc_scale_columns', 'filter_matrix_rows', 'truncate_rows_csr', 'pinv_array'][t % 5]
+    kind = ['csc_scale_rows', 'csc_scale_columns', 'filter_matrix_rows', 'truncate_rows_csr', 'pinv_array', 'py_pinv_array'][t % 6]
     cplx = bool(rng.random() < 0.3) and not kind.startswith('csc')
-    if kind == 'pinv_array':
+    if kind in ('pinv_array', 'py_pinv_array'):
         bs = int(rng.integers(1, 5))
         nb = int(rng.integers(1, 4))
-        D = _block_matrix(rng, bs, nb, cplx, bool(rng.random() < 0.5))
+        if kind == 'py_pinv_array' and rng.random() < 0.4:
+            bs, nb = 1, int(rng.integers(1, 6))       # the 1 x 1 branch: zeros stay zero
+        D = _block_matrix(rng, bs, nb, cplx, bool(rng.random() < (0.8 if bs == 1 else 0.5)))
         blocks = np.array([D[k * bs:(k + 1) * bs, k * bs:(k + 1) * bs] for k in range(nb)])
         return {'op': 'kernel', 'kind': kind, 'bs': bs, 'complex': cplx, 'blocks': _encv(blocks), 'trans': str(rng.choice(['T', 'F']))}, {kind}
     fmt = 'csc' if kind.startswith('csc') else 'csr'
@@ -1089,15 +1093,26 @@ def eval_kernel(ctx, c, feats=()):
     from pyamg import amg_core
     kind = c['kind']
     it = Item('kernel:' + kind, c, _key('kernel', c), feats=feats)
-    if kind == 'pinv_array':
+    if kind in ('pinv_array', 'py_pinv_array'):
         cplx, bs = c['complex'], c['bs']
         blocks = _decv(c['blocks'], cplx).reshape(-1, bs, bs)
-        a = np.ascontiguousarray(blocks if c['trans'] == 'T' else blocks.transpose(0, 2, 1)).ravel().copy()
-        amg_core.pinv_array(a, blocks.shape[0], bs, c['trans'])
-        out = a.reshape(-1, bs, bs)      # 'F' only changes how the input is read; the result is row major
+        if kind == 'py_pinv_array':
+            from pyamg.util.linalg import pinv_array
+            out = blocks.copy()
+            try:
+                r = pinv_array(out)
+            except Exception as e:
+                ctx.violation(f'linalg.pinv_array raised {type(e).__name__}: {e}', c)
+                return it
+            if r is not None:
+                ctx.violation('linalg.pinv_array returned something (documented: in place)', c)
+        else:
+            a = np.ascontiguousarray(blocks if c['trans'] == 'T' else blocks.transpose(0, 2, 1)).ravel().copy()
+            amg_core.pinv_array(a, blocks.shape[0], bs, c['trans'])
+            out = a.reshape(-1, bs, bs)      # 'F' only changes how the input is read; the result is row major
         ref = np.array([np.linalg.pinv(b, rcond=1e-9) for b in blocks])
         if not close(out, ref, 1e-8):
-            ctx.violation(f'pinv_array kernel ({c["trans"]}): expected {ref.tolist()} got {out.tolist()}', c)
+            ctx.violation(f'{kind} ({c["trans"]}): expected {ref.tolist()} got {out.tolist()}', c)
         mode = 'c' if cplx else 'r'
         for k in range(blocks.shape[0]):
             it.ask(f'c19_pinv {mode} {bs} {ev(blocks[k], cplx)}', partial(_cmp_pinv, out=out[k].copy(), cplx=cplx), out[k].ravel().tolist())
@@ -1389,7 +1404,7 @@ def run(ctx):
     q = ctx.scale
     items = []
     for name, nq, nt in (('scale', 640, 12800), ('diag', 400, 8000), ('symresc', 250, 5000), ('filter', 840, 16800),
-                         ('block', 300, 6000), ('filterop', 300, 6000), ('kernel', 400, 8000)):
+                         ('block', 300, 6000), ('filterop', 300, 6000), ('kernel', 480, 9600)):
         items += run_part(ctx, name, q(nq, nt))
     flush(ctx, items)              # one batch through the Lean driver
     part_spectral(ctx, q(240, 4000))
